@@ -517,7 +517,15 @@ func (g *Gen) Program(profile string) string {
 			g.sequence(s, 4, 8)
 			if len(s.kids) > 0 {
 				a := s.kids[r.Intn(len(s.kids))]
-				if len(a.attrs) == 0 {
+				// an actor that is a grid and whose spans carry messages inside a group makes the layout fail (finding
+				// C17-seq-grid-actor-span-in-group; C17 keeps a fixed witness): only actors without span messages
+				usesSpan := false
+				for _, l := range s.raw {
+					if strings.Contains(l, a.name+".s") {
+						usesSpan = true
+					}
+				}
+				if len(a.attrs) == 0 && !usesSpan {
 					g.grid(a, 0)
 				}
 			}
